@@ -9,6 +9,7 @@ import (
 
 	"github.com/golang/snappy"
 
+	"github.com/samaritan-proxy/samaritan/pb/config/protocol"
 	pbredis "github.com/samaritan-proxy/samaritan/pb/config/protocol/redis"
 
 	"verif.local/sim/cluster"
@@ -114,11 +115,42 @@ func (p c13) Gen(r *simhook.Rand, tier string, idx int) harness.Scenario {
 	if r.Chance(1, 4) {
 		sc.Env.FragNum, sc.Env.FragDen = 1, 3
 	}
+	if r.Chance(1, 12) {
+		// class "late-section+redirect": the service starts without a compression section; one backend connection
+		// exists before compression is switched on, the other is made afterwards; a write routed by the stale table
+		// to the new connection is redirected to the old one, then read back
+		sc.Class = "late-section+redirect"
+		sc.Env.Masters = 2
+		sc.Env.CompressionLate = true
+		sc.Env.Compression.Enable = false
+		ks := keysForNodes(r, 2, "ls", 3)
+		old, fresh := r.Intn(2), 0
+		fresh = 1 - old
+		kx := ks[fresh][r.Intn(3)]
+		cs := ConnScript{Name: "c0"}
+		cs.Reqs = append(cs.Reqs, world.Request{Args: world.Bins("GET", ks[old][0]), Wait: true})
+		cs.Reqs = append(cs.Reqs, world.Request{Args: append(world.Bins("SET", ks[old][1]), world.Bin(genValue(r, th))), Wait: true})
+		big := world.Bin(genValue(r, th))
+		cs.Reqs = append(cs.Reqs, world.Request{Args: append(world.Bins("SET", kx), big), Wait: true, Gap: 3000 + r.Intn(3000)})
+		cs.Reqs = append(cs.Reqs, world.Request{Args: world.Bins("GET", kx), Wait: true})
+		cs.Reqs = append(cs.Reqs, world.Request{Args: world.Bins("GET", ks[old][1]), Wait: true, Gap: r.Intn(130000)})
+		cs.Reqs = append(cs.Reqs, world.Request{Args: world.Bins("GET", kx), Wait: true})
+		sc.Conns = []ConnScript{cs}
+		sc.Toggles = []Toggle{{AfterSend: 1 + r.Intn(30), Enable: true}}
+		slot := cluster.Slot([]byte(kx))
+		sc.Faults = []Fault{{Kind: "layout", From: slot, To: slot, Dst: old, AfterSend: 1 + r.Intn(30)}}
+		return sc
+	}
 	toggles := r.Chance(1, 4)
 	if toggles {
 		sc.Class = "toggle"
 		en := r.Chance(1, 2)
 		sc.Env.Compression.Enable = en
+		if !en && r.Chance(1, 2) {
+			// the service is created without a compression section at all; the first toggle brings it
+			sc.Env.CompressionLate = true
+			sc.Class = "toggle-late-section"
+		}
 		at := 0
 		for i := 0; i < 1+r.Intn(4); i++ {
 			at += r.Intn(300)
@@ -311,8 +343,16 @@ func (p c13) Run(t *testing.T, s harness.Scenario) harness.Outcome {
 			if !toggled[i] && w.firstSend >= 0 && w.rt.Step-w.firstSend >= int64(tg.AfterSend) && w.env.Proc != nil {
 				toggled[i] = true
 				cfg := *w.env.SvcCfg
-				opt := *cfg.GetRedisOption()
-				cp := *opt.Compression
+				var opt protocol.RedisOption
+				if o := cfg.GetRedisOption(); o != nil {
+					opt = *o
+				}
+				var cp pbredis.Compression
+				if opt.Compression != nil {
+					cp = *opt.Compression
+				} else {
+					cp = pbredis.Compression{Threshold: sc.Env.Compression.Threshold, Algorithm: pbredis.Compression_SNAPPY}
+				}
 				cp.Enable = tg.Enable
 				opt.Compression = &cp
 				cfg.ProtocolOptions = wrapRedisOption(&opt)
